@@ -79,11 +79,16 @@ func indexes(c *hist.Case, published bool) []int {
 func evalCase(c *hist.Case) (kind, sig, msg string) {
 	pc := c.Client()
 	pub, unpub := c.Stores()
-	got := res.Resolve(pc, c.Suffix, pub, unpub)
+	var opts []document.ResolutionOption
+	if add := c.Additional(); len(add) > 0 {
+		opts = append(opts, document.WithAdditionalOperations(add))
+	}
+	got := res.Resolve(pc, c.Suffix, pub, unpub, opts...)
 	if got.Panic != "" {
 		return "C02/panic", "panic", "Resolve panicked: " + got.Panic
 	}
 	sorted := *c
+	sorted.AdditionalOrder = nil
 	sorted.StoreOrder = chronological(c, indexes(c, true))
 	sorted.UnpubOrder = chronological(c, indexes(c, false))
 	sp, su := sorted.Stores()
@@ -286,7 +291,7 @@ func alphaCode(i int) uint64 {
 // random part
 
 func TestRapidCompetitors(t *testing.T) {
-	ev.Rule(chkRapid, "rapid: tree-generated histories (all 5 key types, both hash algorithms, forks, bad deltas, windows, duplicate creates, unpublished operations), (time, number) drawn so that time order and number order disagree, store and unpublished-store return orders drawn as permutations; same two oracles; non-trivial = >= 2 valid candidates for a commitment/create slot and a non-chronological store order")
+	ev.Rule(chkRapid, "rapid: tree-generated histories (all 5 key types, both hash algorithms, forks, bad deltas, windows, duplicate creates, unpublished operations), (time, number) drawn so that time order and number order disagree, store and unpublished-store return orders drawn as permutations, and (one in three) a drawn subset of the operations handed over through the additional-operations resolution option in a drawn order; same two oracles; non-trivial = >= 2 valid candidates for a commitment/create slot and a non-chronological store order")
 	ev.Rapid(t, chkRapid, 600, 6000, func(t *rapid.T) {
 		h := gen.Hist(t, gen.HistOpts{MinOps: 2, MaxOps: 9, Forks: true, BadDeltas: true, Windows: true, DupCreates: true, Replays: true, Pool: "c02"})
 		anch := gen.Anchor(t, h, gen.AnchorOpts{Unpublished: true})
@@ -304,6 +309,31 @@ func TestRapidCompetitors(t *testing.T) {
 		}
 		if c.UnpubOrder == nil {
 			c.UnpubOrder = []int{}
+		}
+		if rapid.IntRange(0, 2).Draw(t, "additionalOperations") == 0 {
+			// some operations (never the first create) reach the resolution through the caller-supplied
+			// additional-operations option instead of a store
+			move := func(l []int) []int {
+				var keep []int
+				for _, i := range l {
+					if i != 0 && rapid.IntRange(0, 2).Draw(t, "viaOption") == 0 {
+						c.AdditionalOrder = append(c.AdditionalOrder, i)
+					} else {
+						keep = append(keep, i)
+					}
+				}
+				if keep == nil {
+					keep = []int{}
+				}
+				return keep
+			}
+			c.StoreOrder, c.UnpubOrder = move(c.StoreOrder), move(c.UnpubOrder)
+			ap := gen.Perm(t, len(c.AdditionalOrder), "additionalPerm")
+			ao := make([]int, len(ap))
+			for k, j := range ap {
+				ao[k] = c.AdditionalOrder[j]
+			}
+			c.AdditionalOrder = ao
 		}
 		kind, sig, msg := evalCase(c)
 		comp := competitors(c)
